@@ -22,6 +22,7 @@ EXPLANATION_ADDED = 'R3 also requires the slices of a vectored Push to be append
 EXPLANATION = EXPLANATION + " Added while testing against seeded changes: " + EXPLANATION_ADDED
 EXPLANATION = EXPLANATION + ' Rounds 12-13: R7 also requires append_push_data to be total on every Push encoding: a length test on the way to the append accepts a header-only (5-octet) frame.'
 EXPLANATION = EXPLANATION + ' Rounds 14-15 and the value sweep: R1 / R3 require each integer field to be the value read / the field written itself (no arithmetic, no narrowing cast, no byte swapping); (R8) every Frame::new_* constructor stores its arguments as they are.'
+EXPLANATION = EXPLANATION + ' Rounds 16-17: (R9) = C20.R11 on the buffer operations the decoder relies on. Not decided: the equality of a vectored and a single Push payload with the same bytes (PushPayload::eq) - a semantic equivalence of two implementations.'
 ASSUMPTIONS = [
     "bytes::Buf::get_uN/split_to and BufMut::put_uN read/write big-endian fixed widths and panic on under-run "
     "(library contract)",
